@@ -25,7 +25,9 @@ def check_table(res, repo):
     # the writer: {"indicator": self._name if self._name else type(self).__name__}
     from ..structure import canon_ifexp
 
-    if not any(canon_ifexp(e) == ("self._name", "self._name", "type(self).__name__") for e in ast.walk(settings.node) if isinstance(e, ast.IfExp)):
+    _w1 = any(canon_ifexp(e) == ("self._name", "self._name", "type(self).__name__") for e in ast.walk(settings.node) if isinstance(e, ast.IfExp))
+    _w2 = any(isinstance(e, ast.BoolOp) and isinstance(e.op, ast.Or) and [ast.unparse(v) for v in e.values] == ["self._name", "type(self).__name__"] for e in ast.walk(settings.node))
+    if not (_w1 or _w2):
         res.errors.append("Indicator.settings no longer emits `self._name if self._name else type(self).__name__` (writer of the table changed; re-derive the rule)")
     for ci in repo.shipped():
         if ci.name == "Amorph":
@@ -50,8 +52,15 @@ def check_table(res, repo):
     # every other key settings can emit must be an accepted __init__ parameter
     skip = set()
     for n in ast.walk(settings.node):
-        if isinstance(n, ast.Compare) and isinstance(n.ops[0], ast.In) and isinstance(n.comparators[0], (ast.List, ast.Tuple, ast.Set)):
-            skip |= {e.value for e in n.comparators[0].elts if isinstance(e, ast.Constant)}
+        if isinstance(n, ast.Compare) and isinstance(n.ops[0], ast.In):
+            coll = n.comparators[0]
+            if isinstance(coll, ast.Call) and call_name(coll) in ("frozenset", "set", "tuple", "list") and len(coll.args) == 1:
+                coll = coll.args[0]
+            if isinstance(coll, (ast.List, ast.Tuple, ast.Set)):
+                skip |= {e.value for e in coll.elts if isinstance(e, ast.Constant)}
+        # a single excluded name:  name == "candles"
+        if isinstance(n, ast.Compare) and len(n.ops) == 1 and isinstance(n.ops[0], ast.Eq) and isinstance(n.comparators[0], ast.Constant) and isinstance(n.comparators[0].value, str) and isinstance(n.left, ast.Name):
+            pass
     for ci in repo.shipped():
         if ci.name == "Amorph":
             continue
@@ -79,14 +88,26 @@ def check_table(res, repo):
             asg.setdefault(n.targets[0].id, []).append(n.value)
 
     def popped(name, key):
-        return any(isinstance(v, ast.Call) and call_name(v) == "pop" and v.args and isinstance(v.args[0], ast.Constant) and v.args[0].value == key for v in asg.get(name, []))
+        """the local holds the value taken out of the raw dict under `key` (pop / get / subscript)"""
+        for v in asg.get(name, []):
+            if isinstance(v, ast.Call) and call_name(v) in ("pop", "get") and v.args and isinstance(v.args[0], ast.Constant) and v.args[0].value == key:
+                return True
+            if isinstance(v, ast.Subscript) and isinstance(v.slice, ast.Constant) and v.slice.value == key:
+                return True
+        return False
 
     def is_union(name):
         return any(isinstance(v, ast.BinOp) and isinstance(v.op, ast.BitOr) and {ast.unparse(v.left), ast.unparse(v.right)} == {"PATTERN_MAP", "MOVEMENT_MAP"} for v in asg.get(name, []))
 
-    subs = [n for n in ast.walk(bi.node) if isinstance(n, ast.Subscript) and isinstance(n.value, ast.Name) and isinstance(n.slice, ast.Name)]
-    found_ind = any(n.value.id == "INDICATOR_MAP" and popped(n.slice.id, "indicator") for n in subs)
-    found_an = any(is_union(n.value.id) and popped(n.slice.id, "analysis") for n in subs)
+    # lookups: M[k] or M.get(k)
+    lookups = []
+    for n in ast.walk(bi.node):
+        if isinstance(n, ast.Subscript) and isinstance(n.value, ast.Name) and isinstance(n.slice, ast.Name):
+            lookups.append((n.value.id, n.slice.id))
+        elif isinstance(n, ast.Call) and call_name(n) == "get" and isinstance(n.func, ast.Attribute) and isinstance(n.func.value, ast.Name) and n.args and isinstance(n.args[0], ast.Name):
+            lookups.append((n.func.value.id, n.args[0].id))
+    found_ind = any(m == "INDICATOR_MAP" and popped(k, "indicator") for m, k in lookups)
+    found_an = any(is_union(m) and popped(k, "analysis") for m, k in lookups)
     for ok_, need in ((found_ind, 'INDICATOR_MAP[<popped "indicator" name>]'), (found_an, '(PATTERN_MAP | MOVEMENT_MAP)[<popped "analysis" name>]')):
         if ok_:
             res.ok(rule, {"reader": "_build_indicator", "looks up": need})
@@ -143,7 +164,25 @@ def check_binding(res, repo, prop="C08", raw_required=True):
     mvar = next((ast.unparse(st.targets[0]) for st in ast.walk(bind_loop) if isinstance(st, ast.Assign) and st.value is c and isinstance(st.targets[0], ast.Name)), None)
     stores = [st for st in ast.walk(bind_loop) if isinstance(st, ast.Assign) and isinstance(st.targets[0], ast.Subscript) and ast.unparse(st.targets[0].value) == "self._candles"]
     registered = mvar is not None and any(ast.unparse(st.targets[0].slice) in (f"{mvar}.name", kws.get("timeframe", "?")) and ast.unparse(st.value) == mvar for st in stores)
-    bound = [ast.unparse(st.value).replace("'", '"') for st in ast.walk(bind_loop) if isinstance(st, ast.Assign) and any(ast.unparse(t) == f"{lv}.candle_manager" for t in st.targets)]
+    _ldefs = {}
+    for st in ast.walk(bind_loop):
+        if isinstance(st, ast.Assign) and len(st.targets) == 1 and isinstance(st.targets[0], ast.Name):
+            _ldefs.setdefault(st.targets[0].id, []).append(st.value)
+
+    def _flow(e, depth=0):
+        """expressions that can reach the assignment through locals (a registered new manager counts as its registry entry)"""
+        if isinstance(e, ast.Name) and depth < 4:
+            if e.id == mvar and registered:
+                return [f"self._candles[{lv}.timeframe]"]
+            out = []
+            for d in _ldefs.get(e.id, []):
+                out += _flow(d, depth + 1)
+            return out or [e.id]
+        return [ast.unparse(e).replace("'", '"')]
+
+    bound = [x for st in ast.walk(bind_loop) if isinstance(st, ast.Assign) and any(ast.unparse(t) == f"{lv}.candle_manager" for t in st.targets) for x in _flow(st.value)]
+    if registered and mvar is not None:
+        bound = [f"self._candles[{lv}.timeframe]" if b == f"self._candles[{mvar}.name]" else b for b in bound]
     if registered and f"self._candles[{lv}.timeframe]" in bound and "self._candles[DEFAULT_CANDLES]" in bound:
         res.ok(rule, {"site": vi.where, "why": "managers are registered and looked up by timeframe; indicators without timeframe use the default manager"}, nontrivial="validate:registry")
     else:
